@@ -705,11 +705,11 @@ def evaluate(case, native):
         everyone = [f'v{g}_{i}' for g, size in enumerate(groups) for i in range(size)]
         avail = set(everyone) - in_use
         exp_results, exp_avail, exp_copy = [], set(avail), None
-        if op == 'use':
+        if op in ('use', 'use_route', 'get_route'):
             exp_results = [target in avail]; exp_avail.discard(target)
-        elif op == 'free':
+        elif op in ('free', 'free_route'):
             exp_results = [target not in avail]; exp_avail.add(target)
-        elif op == 'use-twice':
+        elif op in ('use-twice', 'get-twice'):
             exp_results = [target in avail, False]; exp_avail.discard(target)
         elif op == 'copy':
             exp_results = [target in avail]; exp_copy = sorted(avail - {target})
@@ -718,6 +718,9 @@ def evaluate(case, native):
             exp_results = [target in avail and target in keep]; exp_copy = sorted((avail & keep) - {target})
             if native['slice_all'] != sorted(keep):
                 return True, f'the slice keeping {sorted(keep)} knows the actors {native["slice_all"]}'
+        for got, rid in zip(native['results'], native.get('routes') or []):
+            if got and rid != target:
+                return True, f'{op}({target}) handed out a route of actor {rid}'
         if native['results'] != exp_results:
             return True, f'registry {op}({target}) with {sorted(in_use)} in use answered {native["results"]}, expected {exp_results}'
         if native['available'] != sorted(exp_avail):
